@@ -76,6 +76,9 @@ theorem fastEnvPreFix_eq : fastEnvPreFix = genEnvPreFix := by
 theorem fastEnvPreFix2_eq : fastEnvPreFix2 = genEnvPreFix2 := by
   unfold fastEnvPreFix2 genEnvPreFix2; rw [fastEnv_eq]
 
+theorem fastEnvPreFix3_eq : fastEnvPreFix3 = genEnvPreFix3 := by
+  unfold fastEnvPreFix3 genEnvPreFix3; rw [fastEnv_eq]
+
 /-! ### the finite families -/
 
 def upA (c : Nat) : Nat := if 97 ≤ c ∧ c ≤ 122 then c - 32 else c
@@ -119,13 +122,31 @@ def contexts : List (Str × Str) :=
   [([], []), ([], [46]), ([32], [32]), ([40], [41]), (ofString "um ", ofString " please"),
    (ofString "hmm... ", ofString " ..."), (ofString "well, ", [33]), ([9], [10])]
 
-def expected (c : Str × Str) (v : Str) (b : Bool) : Option (List MR) :=
-  some [⟨c.1.length, (c.1.length : Int) + v.length - 1, v, b, Score.zero⟩]
+/-- a score inside `[0, 1]`, as a fraction with a positive denominator -/
+def inUnit (s : Score) : Bool := decide (0 < s.den) && decide (0 ≤ s.num) && decide (s.num ≤ s.den)
+
+/-- exactly one entity: the expression `v` of polarity `b` standing after the prefix `c.1`, with a score in `[0, 1]` -/
+def isExpected (c : Str × Str) (v : Str) (b : Bool) (r : Option (List MR)) : Bool :=
+  match r with
+  | some [m] => m.start == c.1.length && m.stop == (c.1.length : Int) + v.length - 1 && m.text == v && m.value == b &&
+      inUnit m.score
+  | _ => false
+
+theorem isExpected_spec (c : Str × Str) (v : Str) (b : Bool) (r : Option (List MR)) (h : isExpected c v b r = true) :
+    ∃ sc, r = some [⟨c.1.length, (c.1.length : Int) + v.length - 1, v, b, sc⟩] ∧ inUnit sc = true := by
+  unfold isExpected at h
+  match r, h with
+  | some [m], h =>
+    simp only [Bool.and_eq_true, beq_iff_eq] at h
+    obtain ⟨⟨⟨⟨h1, h2⟩, h3⟩, h4⟩, h5⟩ := h
+    refine ⟨m.score, ?_, h5⟩
+    cases m
+    simp_all
 
 /-- every alternative of `ws` × letter case × context: one entity, exactly that expression, polarity `b` -/
 def polarityOn (E : Env) (b : Bool) (ws : List Str) : Bool :=
   ws.all fun w => (variants w).all fun v => contexts.all fun c =>
-    recognise E (c.1 ++ v ++ c.2) == expected c v b
+    isExpected c v b (recognise E (c.1 ++ v ++ c.2))
 
 def polarityOK (E : Env) (b : Bool) : Bool := polarityOn E b (alts b)
 
@@ -148,10 +169,10 @@ def neutralOK (E : Env) : Bool := neutralPool.all fun q => recognise E q == some
 def seps : List Str := [[32], [44, 32]]
 
 /-- one entity; it is a listed expression (text in `alts` of its own polarity, any letter case being lower here)
-whose span is where that text stands in `q`; its score is the parser's default -/
+whose span is where that text stands in `q`; its score lies in `[0, 1]` -/
 def oneListed (q : Str) (r : Option (List MR)) : Bool :=
   match r with
-  | some [m] => (alts m.value).contains m.text && sliceI q m.start (m.stop + 1) == m.text && m.score == Score.zero
+  | some [m] => (alts m.value).contains m.text && sliceI q m.start (m.stop + 1) == m.text && inUnit m.score
   | _ => false
 
 /-- (t, f) in both orders around the separator -/
